@@ -415,6 +415,70 @@ theorem advClustKernel_eq (N : Nat) (A : List (List Bool)) (norm : List Rat) :
   · rw [advCount_eq_zero A N i (by omega)]
     simp
 
+/-! ## time reversal exchanges retarded and advanced clustering -/
+
+/-- **retarded ↔ advanced clustering counters** under time reversal, for any two
+mirrored logs -/
+theorem reverse_exchanges_clustering_counts (N : Nat) (log log' : List (Nat × Nat))
+    (hm : ∀ a b, a < N → b < N → entry log' a b = entry log (N - 1 - a) (N - 1 - b))
+    (a : Nat) (ha : a < N) :
+    retCount (adjMat N log') a = advCount (adjMat N log) N (N - 1 - a) ∧
+    advCount (adjMat N log') N a = retCount (adjMat N log) (N - 1 - a) := by
+  have hm' : ∀ a b, a < N → b < N → entry log a b = entry log' (N - 1 - a) (N - 1 - b) := by
+    intro a b ha hb
+    rw [hm _ _ (by omega) (by omega)]
+    have e1 : N - 1 - (N - 1 - a) = a := by omega
+    have e2 : N - 1 - (N - 1 - b) = b := by omega
+    rw [e1, e2]
+  have mk : ∀ (l l' : List (Nat × Nat)),
+      (∀ a b, a < N → b < N → entry l' a b = entry l (N - 1 - a) (N - 1 - b)) →
+      ∀ a, a < N → retCount (adjMat N l') a = advCount (adjMat N l) N (N - 1 - a) := by
+    intro l l' h a ha
+    refine retCount_mirror N (adjMat N l) (adjMat N l') ?_ ?_ a ha
+    · intro i j hi hj
+      rw [mat_adjMat N l' i j hi hj, mat_adjMat N l _ _ (by omega) (by omega)]
+      exact h i j hi hj
+    · intro i j hi hj
+      rw [mat_adjMat N l i j hi hj, mat_adjMat N l j i hj hi]
+      exact entry_symm l i j
+  refine ⟨mk log log' hm a ha, ?_⟩
+  have := mk log' log hm' (N - 1 - a) (by omega)
+  have e1 : N - 1 - (N - 1 - a) = a := by omega
+  rw [e1] at this
+  exact this.symm
+
+/-- **retarded ↔ advanced local clustering** (the methods' output arrays) under time
+reversal: `retarded_local_clustering` of the reversed series is the reversed
+`advanced_local_clustering` of the original one, and vice versa. -/
+theorem reverse_exchanges_clustering (N : Nat) (log log' : List (Nat × Nat))
+    (hm : ∀ a b, a < N → b < N → entry log' a b = entry log (N - 1 - a) (N - 1 - b))
+    (hlt : ∀ a b, (a, b) ∈ log → a < b) (hlt' : ∀ a b, (a, b) ∈ log' → a < b) :
+    retClust (adjMat N log') = (advClust (adjMat N log)).reverse ∧
+    advClust (adjMat N log') = (retClust (adjMat N log)).reverse := by
+  have hlen : ∀ l, (adjMat N l).length = N := by intro l; simp [adjMat]
+  have hnorm : ∀ (f : Nat → Rat) (i : Nat), i < N →
+      ((List.range N).map f).getD i 0 = f i := by
+    intro f i hi
+    simp [List.getD, List.getElem?_map, List.getElem?_range hi]
+  constructor
+  · rw [retClust, advClust, advClustKernel_eq, hlen, hlen, ← map_range_rev]
+    simp only [retClustKernel]
+    apply List.map_congr_left
+    intro a ha
+    rw [List.mem_range] at ha
+    rw [hnorm _ a ha, hnorm _ (N - 1 - a) (by omega),
+      (reverse_exchanges_degrees N log log' hm hlt hlt' a ha).1,
+      (reverse_exchanges_clustering_counts N log log' hm a ha).1]
+  · rw [retClust, advClust, advClustKernel_eq, hlen, hlen]
+    simp only [retClustKernel]
+    rw [← map_range_rev]
+    apply List.map_congr_left
+    intro a ha
+    rw [List.mem_range] at ha
+    rw [hnorm _ a ha, hnorm _ (N - 1 - a) (by omega),
+      (reverse_exchanges_degrees N log log' hm hlt hlt' a ha).2,
+      (reverse_exchanges_clustering_counts N log log' hm a ha).2]
+
 /-! ## error branch -/
 
 /-- **error branch of the natural kernels** (audited copy of `kernelN_error`): with
